@@ -19,6 +19,32 @@ open Py V S
 @[simp] theorem error_bind {α β} (e : String) (f : α → R β) : ((Except.error e : R α) >>= f) = Except.error e := rfl
 @[simp] theorem pure_eq_ok {α} (a : α) : (pure a : R α) = Except.ok a := rfl
 
+instance {ε α} [DecidableEq ε] [DecidableEq α] : DecidableEq (Except ε α)
+  | .ok a, .ok b => if h : a = b then isTrue (by rw [h]) else isFalse (by intro e; injection e with e; exact h e)
+  | .error a, .error b => if h : a = b then isTrue (by rw [h]) else isFalse (by intro e; injection e with e; exact h e)
+  | .ok _, .error _ => isFalse (by intro e; cases e)
+  | .error _, .ok _ => isFalse (by intro e; cases e)
+
+/-- two duplicate-free lists, one inside the other and not shorter, have the same elements -/
+theorem subset_of_length_le {α} [DecidableEq α] :
+    ∀ (a b : List α), a.Nodup → b.Nodup → a ⊆ b → b.length ≤ a.length → b ⊆ a
+  | [], b, _, _, _, hl => by cases b <;> simp_all
+  | x :: a', b, ha, hb, hs, hl => by
+    have hx : x ∈ b := hs (by simp)
+    have ha' := List.nodup_cons.mp ha
+    have hs' : a' ⊆ b.erase x := by
+      intro y hy
+      have hyb : y ∈ b := hs (by simp [hy])
+      have hne : y ≠ x := by rintro rfl; exact ha'.1 hy
+      exact (List.mem_erase_of_ne hne).mpr hyb
+    have hl' : (b.erase x).length ≤ a'.length := by
+      rw [List.length_erase_of_mem hx]; simp only [List.length_cons] at hl; omega
+    have ih := subset_of_length_le a' (b.erase x) ha'.2 (hb.erase x) hs' hl'
+    intro y hy
+    by_cases hyx : y = x
+    · simp [hyx]
+    · exact List.mem_cons_of_mem _ (ih ((List.mem_erase_of_ne hyx).mpr hy))
+
 /-! ## 1. the frozenset layer -/
 
 def keys (l : List Member) : List CKey := l.map fun m => key m.1
@@ -165,8 +191,19 @@ theorem PreOk.eq {m : Member} (h : PreOk m) : m.1.prereleases m.2 = .ok (mpre m)
 theorem CmpOk.eq {m : Member} {v : Ver} (h : CmpOk m v) : m.1.compare v = .ok (mcmp m v) := by
   obtain ⟨b, hb⟩ := h; simp [mcmp, hb]
 
-/-- a member with an explicit override never raises on `.prereleases` -/
-theorem preOk_of_override (sp : Spec) (b : Bool) : PreOk (sp, some b) := ⟨b, rfl⟩
+/-- `.prereleases` never raises (since C03-fix-3 the text of `===` need not be a version) -/
+theorem preOk (m : Member) : PreOk m := by
+  obtain ⟨sp, ov⟩ := m
+  unfold PreOk Spec.prereleases
+  cases ov with
+  | some b => exact ⟨b, rfl⟩
+  | none =>
+    simp only
+    split
+    · split
+      · exact ⟨_, rfl⟩
+      · exact ⟨_, rfl⟩
+    · exact ⟨_, rfl⟩
 
 /-- `Specifier.contains` with an explicit setting: the gate, then the operator -/
 def accb (m : Member) (b : Bool) (v : Ver) : Bool := !(v.isPre && !b) && mcmp m v
@@ -205,23 +242,22 @@ def effective (S : SpecSet) (p : Option Bool) : Option Bool :=
     | some b => some b
     | none => if S.specs.isEmpty then none else some (S.specs.any mpre)
 
-theorem prereleases_ok {S : SpecSet} {it : List Member} (hp : it.Perm S.specs)
-    (hpre : S.pre = none → ∀ m ∈ S.specs, PreOk m) : S.prereleases it = .ok (effective S none) := by
+theorem prereleases_ok {S : SpecSet} {it : List Member} (hp : it.Perm S.specs) :
+    S.prereleases it = .ok (effective S none) := by
   simp only [SpecSet.prereleases, effective]
   cases hS : S.pre with
   | some b => rfl
   | none =>
     by_cases he : S.specs.isEmpty = true
     · simp [he]
-    · have : anyPre it = .ok (it.any mpre) := anyPre_ok (fun m hm => hpre hS m (hp.mem_iff.mp hm))
+    · have : anyPre it = .ok (it.any mpre) := anyPre_ok (fun m _ => preOk m)
       simp [he, this, hp.any_eq]
 
-theorem resolve_ok {S : SpecSet} {it : List Member} (p : Option Bool) (hp : it.Perm S.specs)
-    (hpre : p = none → S.pre = none → ∀ m ∈ S.specs, PreOk m) :
+theorem resolve_ok {S : SpecSet} {it : List Member} (p : Option Bool) (hp : it.Perm S.specs) :
     S.resolve it p = .ok (effective S p) := by
   cases p with
   | some b => rfl
-  | none => exact prereleases_ok hp (hpre rfl)
+  | none => exact prereleases_ok hp
 
 /-- `SpecifierSet.contains` as a pure function of the member *set* (installed = False) -/
 def admits (S : SpecSet) (v : Ver) (p : Option Bool) : Bool :=
@@ -245,9 +281,9 @@ theorem all_accb_pass {l : List Member} {v : Ver} {b : Bool} (hg : (v.isPre && !
   simp [accb, hg]
 
 theorem contains_eq_admits {S : SpecSet} {it : List Member} {v : Ver} (p : Option Bool)
-    (hp : it.Perm S.specs) (hpre : p = none → S.pre = none → ∀ m ∈ S.specs, PreOk m)
-    (hc : ∀ m ∈ S.specs, CmpOk m v) : S.contains it v p false = .ok (admits S v p) := by
-  simp only [SpecSet.contains, resolve_ok p hp hpre, ok_bind, admits, Bool.false_and, Bool.false_eq_true,
+    (hp : it.Perm S.specs) (hc : ∀ m ∈ S.specs, CmpOk m v) :
+    S.contains it v p false = .ok (admits S v p) := by
+  simp only [SpecSet.contains, resolve_ok p hp, ok_bind, admits, Bool.false_and, Bool.false_eq_true,
     ↓reduceIte, pure_eq_ok]
   by_cases hg : (!(truthy (effective S p)) && v.isPre) = true
   · simp [hg]
@@ -265,11 +301,11 @@ theorem contains_eq_admits {S : SpecSet} {it : List Member} {v : Ver} (p : Optio
 
 /-- `contains(installed=True)` on a pre-release candidate whose base version parses to `vb` -/
 theorem contains_installed {S : SpecSet} {it : List Member} {v vb : Ver} (p : Option Bool)
-    (hp : it.Perm S.specs) (hpre : p = none → S.pre = none → ∀ m ∈ S.specs, PreOk m)
+    (hp : it.Perm S.specs)
     (hv : v.isPre = true) (hb : version v.base = .ok vb) (hc : ∀ m ∈ S.specs, CmpOk m vb) :
     S.contains it v p true =
       .ok (if truthy (effective S p) then S.specs.all (fun m => mcmp m vb) else false) := by
-  simp only [SpecSet.contains, resolve_ok p hp hpre, ok_bind, hv, Bool.and_true, Bool.true_and, ↓reduceIte, hb,
+  simp only [SpecSet.contains, resolve_ok p hp, ok_bind, hv, Bool.and_true, Bool.true_and, ↓reduceIte, hb,
     pure_eq_ok]
   cases he : effective S p with
   | none => simp [truthy]
